@@ -964,8 +964,10 @@ def evaluate(ctx, V, impl, model, cases, record=True):
                 V.count("violations_same_signature")
                 continue
 
+            quick = ("s",) if a.outcome == "Hang" else ()        # a candidate that spins is cut after 0.4 s, not 20 s
+
             def fails(cand, v=v):
-                t = run_impl(impl, [("s", cand)]).get("s")
+                t = run_impl(impl, [("s", cand)], quick).get("s")
                 if t is None:
                     return False
                 try:
@@ -973,9 +975,9 @@ def evaluate(ctx, V, impl, model, cases, record=True):
                 except Viol as v2:
                     return (v2.clause, v2.site) == (v.clause, v.site)
                 return False
-            small = shrink(ops, fails) if len(ops) > 2 else ops
+            small = shrink(ops, fails, budget=10 if "did not return" in v.detail or "Hang" in v.detail else 80) if len(ops) > 2 else ops
             detail = v.detail
-            t = run_impl(impl, [("s", small)]).get("s")
+            t = run_impl(impl, [("s", small)], quick).get("s")
             try:
                 monitor(small, t)
             except Viol as v2:
